@@ -323,15 +323,45 @@ fn c31_case(c: &ClusterCase) -> CaseResult {
         ci.label("undecided: the restarted node had not executed every committed action within 40 s");
         return Ok(ci);
     }
-    if !caught_up {
-        let mismatch = last.is_some();
-        return Err(Fail::new(
-            if mismatch { "restarted node ends in a different state than the leader" } else { "restarted node cannot be observed" },
-            detail("no agreement within 40 s"),
-        ));
-    }
-    if last.as_ref() != Some(&expected) {
-        return Err(Fail::new("restarted node ends in a different state than the leader", detail("state changed again after it had matched")));
+    if !caught_up || last.as_ref() != Some(&expected) {
+        // A difference is a verdict only between two *settled* states. `expected` was read from
+        // the leader right after its last answer, and an observation is several requests: either
+        // side may have been read while an action (deleting a user with its databases, say) was
+        // still being executed. Both nodes are therefore read again until two consecutive
+        // observations of each agree; only a difference that persists then is reported. Nodes
+        // that do not settle within the limit leave the case undecided.
+        let Some(lt) = late_token.clone() else {
+            return Err(Fail::new("restarted node cannot be observed", detail("no login at the restarted node within 40 s")));
+        };
+        let settle_start = Instant::now();
+        let mut prev: Option<(Option<Value>, Option<Value>)> = None;
+        let mut settled: Option<(Value, Value)> = None;
+        while settle_start.elapsed() < Duration::from_secs(20) {
+            let now = (observe(&p.nodes[leader], &token), observe(&p.nodes[late], &lt));
+            if let (Some(a), Some(b)) = (&now.0, &now.1) {
+                if prev.as_ref() == Some(&now) {
+                    settled = Some((a.clone(), b.clone()));
+                    break;
+                }
+            }
+            prev = Some(now);
+            std::thread::sleep(Duration::from_millis(800));
+        }
+        match settled {
+            None => {
+                ci.label("undecided: the two nodes' states did not settle within the limit");
+                return Ok(ci);
+            }
+            Some((a, b)) if a != b => {
+                return Err(Fail::new(
+                    "restarted node ends in a different state than the leader",
+                    detail(&format!("settled states differ (both read twice, unchanged)\nleader now: {a}\nrestarted node now: {b}\nfirst reading of the leader")),
+                ));
+            }
+            Some(_) => {
+                ci.label("states agreed only after both nodes had settled (first reading was taken mid-execution)");
+            }
+        }
     }
     let executed = started.len();
     let non_monotone = c.delays.windows(2).any(|w| w[0] > w[1]);
